@@ -632,6 +632,14 @@ def gen_law(repo, out, errors):
         out.append(f"Definition dm_constant : Q := {cq}.")
         out.append(f"Definition dmdelay_sec (freq dm ref_freq : Q) : Q :=\n  {sec}.")
         out.append(f"Definition dmdelay_samples (freq dm tsamp ref_freq : Q) : Z :=\n  rhe {samp}.   (* .round().astype(np.int32) *)\n")
+        # shape of the result: dm is cast to (ndm, 1) (ndm = 1 for a scalar), freqs to (nchans,), the product broadcasts to (ndm, nchans)
+        out.append("(* shape of the returned array for ndm DMs (scalar_dm: dm was a scalar, then ndm = 1) and nchans channels: the broadcast (ndm, nchans),\n"
+                   f"   then `{ast.unparse(body[-1])}` *)")
+        if keeps_axis:
+            out.append("Definition dmdelays_shape (scalar_dm : bool) (ndm nchans : Z) : list Z :=\n  if scalar_dm then [nchans] else [ndm; nchans].\n")
+        else:
+            out.append("Definition dmdelays_shape (scalar_dm : bool) (ndm nchans : Z) : list Z :=\n"
+                       "  filter (fun k => negb (k =? 1)%Z) [if scalar_dm then 1%Z else ndm; nchans].   (* ndarray.squeeze() drops every axis of length 1 *)\n")
 
         # Header.get_dmdelays
         hpath = f"{repo}/sigpyproc/header.py"
@@ -860,14 +868,153 @@ def gen_rdb(repo, out, errors):
         out.append(f"(* UNSUPPORTED read_dedisp_block: {str(e).replace('*)', '* )')} *)\n")
 
 
+# ================================================================================================
+# E. Filterbank.dedisperse (streamed): the delays, sizes and per-block kernel arguments of the call site
+# ================================================================================================
+
+class SX(RX):
+    """integer expressions of Filterbank.dedisperse: RX plus the builtins min(a, b) / max(a, b)"""
+
+    def __init__(self):
+        self.scal = {"gulp": "gulp", "self.header.nchans": "nchans"}
+        self.arrs = {}
+
+    def x(self, e):
+        if (isinstance(e, ast.Call) and isinstance(e.func, ast.Name) and e.func.id in ("min", "max") and len(e.args) == 2 and not e.keywords):
+            return f"(Z.{e.func.id} {self.x(e.args[0])} {self.x(e.args[1])})"
+        try:
+            return RX.x(self, e)
+        except Unsupported as ex:
+            raise Unsupported(str(ex).replace("read_dedisp_block", "Filterbank.dedisperse"))
+
+
+def gen_stream(repo, out, errors):
+    try:
+        fn = _method(f"{repo}/sigpyproc/base.py", "Filterbank", "dedisperse")
+        if [a.arg for a in fn.args.args] != ["self", "dm", "gulp", "start", "nsamps"] or fn.args.kwarg is None or fn.args.kwarg.arg != "plan_kwargs":
+            raise Unsupported("Filterbank.dedisperse: parameters")
+        body = _strip_doc(fn.body)
+        sx = SX()
+        P = "(d : arr) (nchans gulp nsamps_sel : Z)"
+        A = "d nchans gulp nsamps_sel"
+        defs = []
+        count = {}
+        loop = None
+        ret = None
+        sel_seen = False
+        tim_len_name = None
+
+        def define(t, term, is_arr):
+            k = count.get(t, 0) + 1
+            count[t] = k
+            nm = f"stream_{t}" + ("" if k == 1 else f"_{k}")
+            if is_arr:
+                defs.append(f"Definition {nm} {P} (c : Z) : Z :=\n  {term}.")
+                sx.arrs[t] = f"({nm} {A} c)"
+            else:
+                defs.append(f"Definition {nm} {P} : Z :=\n  {term}.")
+                sx.scal[t] = f"({nm} {A})"
+
+        for s in body:
+            if ret is not None:
+                raise Unsupported("Filterbank.dedisperse: statement after return")
+            if loop is not None:
+                if not isinstance(s, ast.Return):
+                    raise Unsupported("Filterbank.dedisperse: statement after the loop: " + ast.unparse(s)[:70])
+                ret = s
+                continue
+            if isinstance(s, ast.For):
+                loop = s
+                continue
+            if not (isinstance(s, ast.Assign) and len(s.targets) == 1 and isinstance(s.targets[0], ast.Name)):
+                raise Unsupported("Filterbank.dedisperse: statement " + ast.unparse(s)[:70])
+            t = s.targets[0].id
+            u = ast.unparse(s.value)
+            if t == "chan_delays" and "chan_delays" not in sx.arrs:
+                if u != "self.header.get_dmdelays(dm)":
+                    raise Unsupported("Filterbank.dedisperse: chan_delays = " + u[:70])
+                sx.arrs[t] = "(d c)"
+                continue
+            if t == "nsamps_sel":
+                if u != "self.header.nsamples - start if nsamps is None else nsamps":
+                    raise Unsupported("Filterbank.dedisperse: nsamps_sel = " + u[:80])
+                sx.scal[t] = "nsamps_sel"
+                sel_seen = True
+                continue
+            if t == "tim_ar":
+                v = s.value
+                if not (isinstance(v, ast.Call) and ast.unparse(v.func) == "np.zeros" and len(v.args) == 1 and isinstance(v.args[0], ast.Name)
+                        and [ast.unparse(k.value) for k in v.keywords] == ["np.float32"]):
+                    raise Unsupported("Filterbank.dedisperse: tim_ar = " + u[:70])
+                tim_len_name = v.args[0].id
+                defs.append(f"(* tim_ar = np.zeros({tim_len_name}, dtype=np.float32): the length of the returned series *)\n"
+                            f"Definition stream_out_len {P} : Z :=\n  {sx.x(v.args[0])}.")
+                continue
+            if t in ("start", "nsamps", "dm", "self"):
+                raise Unsupported(f"Filterbank.dedisperse: assignment of {t}")
+            define(t, sx.x(s.value), sx.is_arr(s.value) and not isinstance(s.value, ast.Call))
+        if loop is None or ret is None or not sel_seen or tim_len_name is None or "chan_delays" not in sx.arrs:
+            raise Unsupported("Filterbank.dedisperse: structure (delays, nsamps_sel, tim_ar, loop, return)")
+        # for nsamps_r, ii, data in self.read_plan(gulp=.., start=start, nsamps=nsamps, skipback=.., **plan_kwargs):
+        it = loop.iter
+        if not (isinstance(loop.target, ast.Tuple) and [ast.unparse(e) for e in loop.target.elts] == ["nsamps_r", "ii", "data"]
+                and isinstance(it, ast.Call) and ast.unparse(it.func) == "self.read_plan" and not it.args):
+            raise Unsupported("Filterbank.dedisperse: loop header " + ast.unparse(it)[:80])
+        kw = {k.arg: k.value for k in it.keywords}
+        if set(kw) != {"gulp", "start", "nsamps", "skipback", None} or ast.unparse(kw["start"]) != "start" or ast.unparse(kw["nsamps"]) != "nsamps" \
+                or ast.unparse(kw[None]) != "plan_kwargs":
+            raise Unsupported("Filterbank.dedisperse: read_plan arguments " + ast.unparse(it)[:120])
+        plan_gulp = sx.x(kw["gulp"])
+        plan_skip = sx.x(kw["skipback"])
+        if len(loop.body) != 1 or not (isinstance(loop.body[0], ast.Expr) and isinstance(loop.body[0].value, ast.Call)
+                                       and ast.unparse(loop.body[0].value.func) == "kernels.dedisperse"):
+            raise Unsupported("Filterbank.dedisperse: loop body " + ast.unparse(loop.body[0])[:80])
+        ka = loop.body[0].value.args
+        if len(ka) != 7 or loop.body[0].value.keywords or ast.unparse(ka[0]) != "data" or ast.unparse(ka[1]) != "tim_ar" \
+                or not isinstance(ka[2], ast.Name) or ka[2].id not in sx.arrs or ast.unparse(ka[5]) != "nsamps_r":
+            raise Unsupported("Filterbank.dedisperse: kernel arguments " + ast.unparse(loop.body[0])[:140])
+        sx.scal["ii"] = "ii"
+        k_delays = sx.arrs[ka[2].id]
+        k_maxdelay = sx.x(ka[3])
+        k_nchans = sx.x(ka[4])
+        k_index = sx.x(ka[6])
+        # return TimeSeries(tim_ar, self.header.new_header({... 'nsamples': <declared> ...}))
+        rv = ret.value
+        declared = None
+        if (isinstance(rv, ast.Call) and ast.unparse(rv.func) == "TimeSeries" and len(rv.args) == 2 and ast.unparse(rv.args[0]) == "tim_ar"
+                and isinstance(rv.args[1], ast.Call) and ast.unparse(rv.args[1].func) == "self.header.new_header" and len(rv.args[1].args) == 1
+                and isinstance(rv.args[1].args[0], ast.Dict)):
+            dct = {ast.unparse(k): v for k, v in zip(rv.args[1].args[0].keys, rv.args[1].args[0].values)}
+            if "'nsamples'" in dct and ast.unparse(dct.get("'dm'", ast.Constant(0))) == "dm" and ast.unparse(dct.get("'nchans'", ast.Constant(0))) == "1":
+                declared = sx.x(dct["'nsamples'"])
+        if declared is None:
+            raise Unsupported("Filterbank.dedisperse: return " + ast.unparse(rv)[:120])
+        out.append("(* from Filterbank.dedisperse: d = self.header.get_dmdelays(dm) (reference ch1); nsamps_sel = header.nsamples - start, or nsamps if given;\n"
+                   "   every assignment in source order (a name assigned twice gets the suffix _2) *)")
+        out += defs
+        out.append(f"(* self.read_plan(gulp=<this>, start=start, nsamps=nsamps, skipback=<this>) *)")
+        out.append(f"Definition stream_plan_gulp {P} : Z :=\n  {plan_gulp}.")
+        out.append(f"Definition stream_plan_skipback {P} : Z :=\n  {plan_skip}.")
+        out.append("(* kernels.dedisperse(data, tim_ar, <delays>, <maxdelay>, <nchans>, nsamps_r, <index of block ii>) *)")
+        out.append(f"Definition stream_kernel_delay {P} (c : Z) : Z :=\n  {k_delays}.")
+        out.append(f"Definition stream_kernel_maxdelay {P} : Z :=\n  {k_maxdelay}.")
+        out.append(f"Definition stream_kernel_nchans {P} : Z :=\n  {k_nchans}.")
+        out.append(f"Definition stream_kernel_index {P} (ii : Z) : Z :=\n  {k_index}.")
+        out.append(f"(* header of the returned TimeSeries: nsamples (dm = dm, nchans = 1) *)\nDefinition stream_declared_nsamples {P} : Z :=\n  {declared}.\n")
+    except Unsupported as e:
+        errors.append(str(e))
+        out.append(f"(* UNSUPPORTED Filterbank.dedisperse: {str(e).replace('*)', '* )')} *)\n")
+
+
 def gen_c09(repo="/repo"):
-    out = ["(* GENERATED by tools/py2coq/gen_c09.py from sigpyproc/core/kernels.py, block.py, params.py, header.py, readers.py -- do not edit *)",
+    out = ["(* GENERATED by tools/py2coq/gen_c09.py from sigpyproc/core/kernels.py, block.py, params.py, header.py, readers.py, base.py -- do not edit *)",
            "From Coq Require Import ZArith List Bool QArith.", "Require Import SPP.Base.Rt SPP.Model.C09_Arr2.",
            "Import ListNotations.", "Open Scope Z_scope.", ""]
     errors = []
     done = gen_kernels2(repo, out, errors)
     gen_callsites(repo, out, errors, done)
     gen_rdb(repo, out, errors)
+    gen_stream(repo, out, errors)
     out.append("Open Scope Q_scope.")
     gen_law(repo, out, errors)
     return "\n".join(out), errors
